@@ -271,6 +271,27 @@ pub fn gen(tier: &str, rng: &mut Rng, emit: &mut Emit) {
         let ops = (0..65_540).map(|_| l(vec![a(2), a(rng.below(3))])).collect();
         emit.case(17, history(rng, c, ops));
     }
+    // references to nodes that start beyond 64 KiB (two maximal ISA strings first): a reference field narrower than the
+    // 32-bit offset it carries shows only here
+    for _ in 0..(if thorough { 12 } else { 3 }) {
+        let c = rand_ctor(rng);
+        let (n1, n2) = (65_000 + rng.below(500) as usize, 40_000 + rng.below(20_000) as usize);
+        let mut ops = vec![isa_string(rng, n1), isa_string(rng, n2)];
+        let mut prev: Vec<u64> = vec![1, 1];
+        for k in [3u64, 1, 3, 2] {
+            ops.push(rand_op(rng, k, &prev).0);
+            prev.push(k);
+        }
+        // hart info nodes referring to the late ISA string / CMO nodes only
+        let late: Vec<u64> = prev.iter().enumerate().map(|(i, k)| if i >= 2 { *k } else { 0 }).collect();
+        for n in [0usize, 1, 3] {
+            ops.push(hart_info(rng, &late, n).unwrap());
+            prev.push(4);
+        }
+        let k = 1 + rng.below(3);
+        ops.push(rand_op(rng, k, &prev).0);
+        emit.case(17, history(rng, c, ops));
+    }
     // random mixed histories with later nodes referring to earlier handles
     let n = if thorough { 3000 } else { 200 };
     for _ in 0..n {
